@@ -102,7 +102,7 @@ HRPconvert(int32 fid, uint16 tag, uint16 ref, int32 xdim, int32 ydim, int16 sche
 
     HEclear();
 
-    file_rec = HAatom_object(fid);
+    file_rec = HIfile_rec(fid);
     if (BADFREC(file_rec) || SPECIALTAG(tag))
         HGOTO_ERROR(DFE_ARGS, FAIL);
 
